@@ -24,14 +24,16 @@ PROPERTY = "C10"
 # CODE VARIANT FLAGS — the value that matches TODAY's code in /repo (see Model/Live.lean `Cfg`)
 BARE_BYPASS = 1   # 1: console.print()/log() without arguments call Console.line() and bypass the render hooks (F19)
 START_GUARD = 0   # 0: Progress.start() calls refresh() unprotected after installing hook / redirection / hidden cursor
+RESET_SHAPE = 0   # 0: stop() keeps _live_render._shape, so a later start() erases rows of finished output
 
 
 # ------------------------------------------------------------------------------------------------
 # independent specification tracker (what must be on the screen) — shares nothing with the Lean model
 # ------------------------------------------------------------------------------------------------
 class Tracker:
-    def __init__(self, cfg):
+    def __init__(self, cfg, reset_shape=None):
         self.cfg = cfg
+        self.reset_shape = RESET_SHAPE if reset_shape is None else reset_shape
         self.P = []            # printed lines, in order
         self.F = []            # frame on display (as the user should see it)
         self.phase = "idle"    # idle | live | stopped
@@ -44,6 +46,8 @@ class Tracker:
         self.overflow = cfg.overflow
         self.fits = True       # every frame put on display so far fitted the screen
         self.ever_started = False
+        self.restarted = False
+        self.after_stop = None
 
     # the frame the user is entitled to see for the current renderable
     def frame(self, final=False):
@@ -77,14 +81,24 @@ class Tracker:
         if h > self.cfg.height and not final:
             self.fits = False
 
+    def finish_session(self):
+        """What a stopped display left on the screen is finished output from now on."""
+        if self.phase == "stopped" and self.after_stop is not None:
+            self.P += self.after_stop
+            self.F = []
+            self.after_stop = None
+
     def op(self, op):
-        """Update for one successful operation.  Returns False when the history leaves the domain in
-        which the tracker speaks (restart after stop)."""
+        """Update for one successful operation."""
         k = op[0]
+        if self.phase == "stopped" and k in ("P", "B", "BL"):
+            self.finish_session()
         live = self.phase == "live"
         if k == "S":
             if self.phase == "stopped":
-                return False
+                self.restarted = True
+                self.finish_session()
+                self.phase = "idle"
             if self.phase == "idle":
                 self.phase = "live"
                 self.ever_started = True
@@ -98,7 +112,15 @@ class Tracker:
                 self.final_h = self.shown_h
                 self.phase = "stopped"
                 if self.cfg.transient:
+                    # nothing stays (an empty final frame still costs the line feed stop() writes)
+                    self.after_stop = [""] if self.shown_h == 0 else []
+                else:
+                    # the final frame stays as finished output (Progress: padded to its tallest height)
+                    self.after_stop = (self.F + [""] * (self.shown_h - len(self.F))) if self.shown_h else [""]
+                if self.cfg.transient:
                     self.F = []
+                if self.reset_shape:
+                        self.max_h = 0
         elif k in ("B", "BL"):
             self.P.append("")
             if live:
@@ -164,7 +186,7 @@ def prepare(cfg, ops):
     out = []
     for op in ops:
         if op[0] == "P":
-            out.append(("P", op[1], op[2], L.plain_lines(cfg.width, cfg.height, cfg.color, "str" if op[2] == "py" else op[2], op[1])))
+            out.append(("P", op[1], op[2], L.plain_lines(cfg.width, cfg.height, cfg.color, "str" if op[2].startswith("py") else op[2], op[1])))
         else:
             out.append(op)
     return out
@@ -197,19 +219,16 @@ def run_history(ctx, cfg, ops, faults=None, styled=False, evaluate=True, tag="")
             clamped0 = scr.clamped
             scr.feed(toks)
             if evaluating and err == "ok":
-                if not tr.op(op):
-                    evaluating = False
-                    ctx.note("eval_stop:restart-after-stop")
-                    continue
+                tr.op(op)
                 if not tr.fits:
                     evaluating = False
                     ctx.note("eval_stop:frame-taller-than-screen(visible)")
                     continue
                 what = None
-                if tr.phase == "stopped" and op[0] == "X" and cfg.transient and tr.final_h + 1 > cfg.height and tr.ever_started:
+                if tr.phase == "stopped" and op[0] == "X" and cfg.transient and tr.after_stop is not None and tr.final_h + 1 > cfg.height:
                     # the final line feed scrolls the top of a screen-filling frame out of reach
                     ok = screen_ok(cfg, scr, tr)
-                    ctx.check(ok, "Live.stop(transient, frame fills the screen)", (cfg, ops[: i + 1]), "remnant of the transient frame: " + repr(scr.text_rows()), finding="transient-final-frame-fills-screen")
+                    ctx.check(ok, "Live.stop(transient, frame fills the screen)", (cfg, [o[:3] for o in ops[: i + 1]]), "remnant of the transient frame: " + repr(scr.text_rows()), finding="transient-final-frame-fills-screen")
                     evaluating = False
                     continue
                 if not screen_ok(cfg, scr, tr):
@@ -227,8 +246,6 @@ def run_history(ctx, cfg, ops, faults=None, styled=False, evaluate=True, tag="")
                 if what is not None and fail is None:
                     fail = (i, what)
                     evaluating = False
-                if tr.phase == "stopped":
-                    evaluating = False
             elif evaluating and err != "err:KeyError":
                 evaluating = False
         ctl = s.ctl()
@@ -236,11 +253,20 @@ def run_history(ctx, cfg, ops, faults=None, styled=False, evaluate=True, tag="")
         s.close()
     if evaluate and fenc == "-":
         finding = None
-        if fail is not None and any(op[0] in ("B", "BL") for op in ops[: fail[0] + 1]):
-            # counterfactual classifier: the same history with the argument-less print routed through the hook
-            finding = "bare-print-bypasses-hook" if _passes_with_bare_replaced(cfg, ops[: fail[0] + 1]) else None
+        if fail is not None:
+            # counterfactual classifiers: the same history with (a) the argument-less print routed through the
+            # hook, (b) the recorded shape forgotten by stop() — the failure is attributed only if that alone cures it
+            prefix = ops[: fail[0] + 1]
+            bare = any(op[0] in ("B", "BL") for op in prefix)
+            restart = any(a[0] == "X" for a in prefix) and any(b[0] == "S" for j, b in enumerate(prefix) if any(a[0] == "X" for a in prefix[:j]))
+            if bare and _passes_with(cfg, prefix, True, False):
+                finding = "bare-print-bypasses-hook"
+            elif restart and _passes_with(cfg, prefix, False, True):
+                finding = "restart-stale-shape"
+            elif bare and restart and _passes_with(cfg, prefix, True, True):
+                finding = "bare-print-bypasses-hook+restart-stale-shape"
         ctx.check(fail is None, f"{cfg.kind} history", (cfg, [o[:3] for o in ops[: (fail[0] + 1) if fail else 0]]), fail[1] if fail else "", finding=finding)
-    ctx.case("live_run", [cfg.enc(BARE_BYPASS, START_GUARD), cfg.enc_init(), fenc, enc_ops(cfg, ops)], "|".join(per_op) + "#" + ctl,
+    ctx.case("live_run", [cfg.enc(BARE_BYPASS, START_GUARD, RESET_SHAPE), cfg.enc_init(), fenc, enc_ops(cfg, ops)], "|".join(per_op) + "#" + ctl,
              shape=f"{cfg.kind}:{tag}", sample=f"{cfg!r} faults={fenc} ops={[o[:3] for o in ops]!r}")
     for op in ops:
         ctx.note("op:" + op[0] + (":" + op[2] if op[0] == "P" else ""))
@@ -248,20 +274,27 @@ def run_history(ctx, cfg, ops, faults=None, styled=False, evaluate=True, tag="")
     return "".join(written), ops, tr
 
 
-def _passes_with_bare_replaced(cfg, ops):
-    ops2 = [("P", [""], "seg", [""]) if op[0] in ("B", "BL") else op for op in ops]
+def _passes_with(cfg, ops, replace_bare, reset_shape):
+    ops2 = [("P", [""], "seg", [""]) if (replace_bare and op[0] in ("B", "BL")) else op for op in ops]
     s = L.Session(cfg)
-    tr = Tracker(cfg)
+    tr = Tracker(cfg, reset_shape=reset_shape or RESET_SHAPE)
     scr = term.Screen(height=cfg.height)
     try:
         for op in ops2:
             err, chars = s.apply_catch(op)
+            if reset_shape and op[0] == "X":
+                s.live_obj()._live_render._shape = None
+                if cfg.kind != "progress":
+                    s.live_obj().vertical_overflow = cfg.overflow
+            scr.mark()
+            top_before = len(tr.P)
             scr.write(chars)
             if err == "err:KeyError":
                 continue
-            if err != "ok" or not tr.op(op):
+            if err != "ok":
                 return False
-            if not screen_ok(cfg, scr, tr):
+            tr.op(op)
+            if not screen_ok(cfg, scr, tr) or scr.clamped or (scr.min_row_since_mark < top_before and tr.phase != "idle"):
                 return False
         return True
     finally:
@@ -277,13 +310,14 @@ def spec_case(ctx, cfg, ops):
         try:
             if op[0] == "X" and i != len(ops) - 1:
                 ok = False
-            if not tr.op(op):
-                ok = False
+            tr.op(op)
         except KeyError:
             return  # an operation raising KeyError: not wf, and the tracker has nothing to say
     wf = ok and tr.fits and cfg.height >= 1
     if wf and tr.phase == "stopped" and cfg.transient:
         wf = tr.final_h + 1 <= cfg.height
+    if not wf:
+        return False, [], []
     F = tr.F if cfg.kind == "live" else trim(tr.F)
     return wf, tr.P, F
 
@@ -305,7 +339,7 @@ def with_case(ctx, cfg, ops, faults, raise_at):
     injected = raise_at is not None and raise_at <= len(ops)
     if injected and exc is None:
         ctx.check(False, f"with {cfg.kind}: propagation", (cfg, [o[:3] for o in ops], fenc, raise_at), "the exception raised by the body did not leave the block")
-    ctx.case("live_with", [cfg.enc(BARE_BYPASS, START_GUARD), cfg.enc_init(), fenc, enc_ops(cfg, ops), enc_opt(raise_at)],
+    ctx.case("live_with", [cfg.enc(BARE_BYPASS, START_GUARD, RESET_SHAPE), cfg.enc_init(), fenc, enc_ops(cfg, ops), enc_opt(raise_at)],
              L.enc_tokens(term.tokenize(chars)) + "#" + enc_bool(raised) + "#" + ctl, shape=f"{cfg.kind}:{'fault' if fenc != '-' else 'body'}",
              sample=f"with {cfg!r}: ops={[o[:3] for o in ops]!r} faults={fenc} raise_at={raise_at}")
 
@@ -341,6 +375,7 @@ def user_pool(W):
         (["[bold]mark[/bold]up"], "str"),
         (["logged"], "log"),
         (["via", "stdout"], "py"),
+        (["via stderr"], "pye"),
     ]
 
 
@@ -369,9 +404,16 @@ def rand_ops(rng, cfg, n, allow_bare, session=True):
             lines, how = rng.choice(up)
             if how == "py" and not (started and cfg.redirect_stdout):
                 how = "str"
+            if how == "pye" and not (started and cfg.redirect_stderr):
+                how = "str"
             if how == "log" and rng.random() < 0.6:
                 how = "seg"
-            ops.append(("P", lines, how))
+            if how == "py" and rng.random() < 0.4:
+                # the same through two writes: the second line only completes with the second write
+                ops.append(("P", lines, "py1"))
+                ops.append(("P", [L.PENDING], "py2"))
+            else:
+                ops.append(("P", lines, how))
         elif r < 0.36 and allow_bare:
             ops.append(("B",) if rng.random() < 0.6 else ("BL",))
         elif r < 0.50:
@@ -400,6 +442,28 @@ def rand_ops(rng, cfg, n, allow_bare, session=True):
         if rng.random() < 0.85:
             ops.append(("X",))
     return ops
+
+
+def corpus():
+    two = ["L1", "L2"]
+    return [
+        # argument-less print / log under each kind of display
+        (L.Cfg("live", False, 20, 6, init=two), [("S",), ("R",), ("B",), ("U", ["M1", "M2"], True), ("X",)]),
+        (L.Cfg("live", True, 20, 6, init=two), [("S",), ("R",), ("BL",), ("R",), ("X",)]),
+        (L.Cfg("progress", False, 20, 6), [("A", "aa", True), ("A", "bb", True), ("S",), ("B",), ("R",), ("X",)]),
+        (L.Cfg("status", True, 20, 6, init=["work", "more"]), [("S",), ("R",), ("B",), ("R",), ("X",)]),
+        # a stopped display started again
+        (L.Cfg("live", False, 20, 10, init=["1", "2", "3"]), [("S",), ("R",), ("X",), ("P", ["b"], "seg"), ("S",), ("U", ["M"], True), ("X",)]),
+        (L.Cfg("live", True, 20, 10, init=["1", "2", "3"]), [("P", ["p1"], "seg"), ("P", ["p2"], "seg"), ("P", ["p3"], "seg"), ("S",), ("R",), ("X",), ("S",), ("R",), ("X",)]),
+        (L.Cfg("progress", False, 20, 10), [("A", "aa", True), ("A", "bb", True), ("A", "cc", True), ("S",), ("X",), ("P", ["between"], "seg"), ("S",), ("X",)]),
+        (L.Cfg("progress", True, 20, 10), [("P", ["p1"], "seg"), ("P", ["p2"], "seg"), ("A", "aa", True), ("A", "bb", True), ("A", "cc", True), ("S",), ("X",), ("S",), ("X",)]),
+        (L.Cfg("status", True, 20, 10, init=["a", "b", "c"]), [("P", ["p1"], "seg"), ("P", ["p2"], "seg"), ("S",), ("R",), ("X",), ("S",), ("R",), ("X",)]),
+        # overflow mode after a restart: the configured crop must still apply
+        (L.Cfg("live", False, 20, 2, overflow="crop", init=["1"]), [("S",), ("R",), ("X",), ("S",), ("U", ["a", "b", "c"], True), ("P", ["x"], "seg"), ("X",)]),
+        # a transient display whose last frame fills the screen
+        (L.Cfg("live", True, 12, 2, overflow="crop", init=["a", "b"]), [("S",), ("R",), ("X",)]),
+        (L.Cfg("progress", True, 20, 2), [("A", "aa", True), ("A", "bb", True), ("S",), ("X",)]),
+    ]
 
 
 def configs(rng, quick):
@@ -432,13 +496,23 @@ def run(ctx):
         "wf (Lean, decidable): height >= 1, no operation raises, stop only as the last operation, every displayed frame fits the screen (automatic for crop/ellipsis), transient final frame leaves one free row",
     ]
     cfgs = configs(rng, ctx.quick)
+    depth = 3 if ctx.quick else 4
+
+    # ---- 0. corpus: the minimal histories of past findings, first thing on every run
+    for cfg, ops in corpus():
+        run_history(ctx, cfg, ops, tag="corpus")
+    ctx.flush()
 
     # ---- 1. bounded-exhaustive short sessions per kind (every op alphabet member at every position)
-    depth = 3 if ctx.quick else 4
     n_ex = 0
     for (kind, transient, ov, W, H) in cfgs:
-        if (W, H) not in ((20, 4), (12, 2)) and ctx.quick:
-            continue
+        small = (W, H) in ((20, 4), (12, 2))
+        if ctx.quick:
+            if not small:
+                continue
+            depth = 3
+        else:
+            depth = 4 if small else 3
         fp = frames_pool(W, H)
         if kind == "live":
             alpha = [("P", ["u"], "seg"), ("P", ["p", "q"], "seg"), ("R",), ("U", fp[3], True), ("U", fp[8], True), ("U", [], True), ("U", fp[4], False), ("U", fp[7], True), ("S",)]
@@ -470,7 +544,7 @@ def run(ctx):
         chars, pops, tr = run_history(ctx, cfg, ops, styled=rng.random() < 0.3, tag="session")
         if j % 4 == 0:
             outputs.append((cfg.height, chars))
-        if not allow_bare and not any(o[0] == "X" for o in pops[:-1]):
+        if not any(o[0] == "X" for o in pops[:-1]):
             spec_batch.append((cfg, pops))
     # arbitrary histories (restarts, stop in the middle, faults with try/except around every op): correspondence only
     for j in range(n_rand // 2):
@@ -478,7 +552,7 @@ def run(ctx):
         cfg = make_cfg(rng, kind, transient, ov, W, H)
         ops = rand_ops(rng, cfg, rng.randint(1, 40), rng.random() < 0.3, session=False)
         fl = L.Faults(exact=rng.sample(range(30), rng.randint(0, 4)), from_=rng.choice([None, None, rng.randint(0, 30)])) if kind != "status" and rng.random() < 0.6 else None
-        chars, _, _ = run_history(ctx, cfg, ops, faults=fl, evaluate=False, tag="arbitrary")
+        chars, _, _ = run_history(ctx, cfg, ops, faults=fl, evaluate=fl is None, tag="arbitrary")
         if j % 4 == 0:
             outputs.append((cfg.height, chars))
     ctx.flush()
@@ -503,7 +577,7 @@ def run(ctx):
         if r is None:
             continue
         wf, P, F = r
-        ctx.case("live_spec", [cfg.enc(0, START_GUARD), cfg.enc_init(), enc_ops(cfg, pops)], _SpecAnswer(wf, P, F, cfg.kind), shape=f"{cfg.kind}:wf{int(wf)}")
+        ctx.case("live_spec", [cfg.enc(0, START_GUARD, RESET_SHAPE), cfg.enc_init(), enc_ops(cfg, pops)], _SpecAnswer(wf, P, F, cfg.kind), shape=f"{cfg.kind}:wf{int(wf)}")
     ctx.flush()
 
     # ---- 5. exceptions: every render-call index and every block position
@@ -582,7 +656,7 @@ def _progress_prestart(ctx, cfg, rng):
             finding = "progress-start-refresh-raises-leaks"
         ctx.check(restored and scr.visible, "with progress (tasks added before the block): cleanup", (cfg, pre, [o[:3] for o in body], faults.enc()),
                   f"after the block: io/hook restored = {restored}, cursor visible = {scr.visible}, exception = {type(exc).__name__ if exc else None}", finding=finding)
-        ctx.case("live_pre_with", [cfg.enc(BARE_BYPASS, START_GUARD), cfg.enc_init(), faults.enc(), enc_ops(cfg, pre), enc_ops(cfg, body), "-"],
+        ctx.case("live_pre_with", [cfg.enc(BARE_BYPASS, START_GUARD, RESET_SHAPE), cfg.enc_init(), faults.enc(), enc_ops(cfg, pre), enc_ops(cfg, body), "-"],
                  L.enc_tokens(term.tokenize(chars)) + "#" + enc_bool(exc is not None) + "#" + ctl, shape="leak" if not restored else "clean",
                  sample=f"{cfg!r}: {pre!r}; with progress: {[o[:3] for o in body]!r} faults={faults.enc()}")
         ctx.note("prestart:" + ("leak" if not restored else "clean"))
@@ -594,3 +668,30 @@ def replay(ctx, case):
     print("what:", case.get("what"))
     print("re-run `./check C10` to re-evaluate (the generators are seeded: VERIF_SEED=%s)" % case.get("seed"))
     return False
+
+
+MANIFEST = {
+    "text": "Lean 4 theorems (Props/C10.lean) about an executable state-machine model of rich/live.py, live_render.py, the live part of "
+    "progress.py and status.py writing to a VT100-subset terminal with a window of `height` rows over an unbounded scroll-back: "
+    "live_screen (for EVERY well-formed history, of any length, replaying what was written leaves exactly printed lines ++ last refreshed "
+    "frame ++ blank rows; nothing after a transient stop), cursor_never_above_region (for every operation the cursor stays at or below the "
+    "first row under the lines printed before it), cursor_visible_after_stop / stop_shows_cursor, shown_fits_of_crop, cleanup_on_exception "
+    "(for EVERY fault predicate over render-call indices, every body, every raise position: hook depth, sys.stdout/sys.stderr proxies and "
+    "restore slots, started flag and cursor visibility are restored and a body exception leaves the block), run_balanced. The theorems hold "
+    "for the repaired code variants; machine-checked witnesses (decide) show today's code breaks them: old_bare_print_leaves_remnant (F19), "
+    "old_progress_start_leaks, old_restart_erases_printed_lines, transient_frame_filling_screen_leaves_remnant. Tie: per-operation "
+    "comparison of the characters real Live/Progress/Status objects write (tokenised by the independent harness/term.py) with the model's "
+    "terminal operations plus the control state, ~9k histories per quick run / ~250k thorough (bounded-exhaustive sessions over a per-kind "
+    "alphabet, seeded random histories up to 40 operations with restarts and injected faults, with-blocks with an exception at every "
+    "render-call index and every block position), Lean replay vs Python screen oracle, Lean wf/printed/lastFrame vs an independent Python "
+    "tracker; and the theorems' executable statements evaluated on rich's own output after every operation.",
+    "note": "Partial: live_screen is proved for ONE session (stop only as the last operation); histories that start a stopped display again "
+    "are covered by the model, the correspondence, direct evaluation and a witness, not by an unbounded theorem. wf excludes (explicitly, "
+    "decidably) visible-overflow frames taller than the screen (documented by rich as not clearable; Progress has no overflow handling at all) "
+    "and transient displays whose last frame leaves no free row (known finding, no small repair). Parameters, not modelled: what the user "
+    "renderable yields (a list of plain one-cell-wide lines), user output of print/log (the lines a console without live display writes), "
+    "Progress with one text column and a frozen clock, Status with its first spinner frame. Assumed: terminal console (force_terminal), not "
+    "dumb / Jupyter / legacy Windows, auto_refresh=False (threads are C11), no terminal resize, no auto-wrap at the right margin, LF acts as "
+    "CR LF (tty ONLCR). Trusted: Lean kernel; axioms propext/Classical.choice/Quot.sound; harness/term.py, lib_live.py and this module.",
+    "design_ref": "DESIGN.md section 7, C10 (and section 8, F19)",
+}
